@@ -29,6 +29,8 @@ PROP = {
 }
 
 WIDTHS = (1, 2, 3, 8, 32, 256)
+# not cp1252 as they stand, although a Unicode normalisation / compatibility mapping would turn them into cp1252 text
+COMPOSABLE = ("e\u0301", "A\u030a", "n\u0303", "\u212b", "\u212a", "\ufb01", "\uff21", "o\u0308", "\u017f", "\u2126")
 BAD_CPS = (0x81, 0x8D, 0x8F, 0x90, 0x9D, 0x100, 0x20AD, 0x3B1, 0xFFFD, 0xFFFF, 0x1F600, 0xD800)
 
 
@@ -128,7 +130,12 @@ def text_strategy(tier):
     @st.composite
     def cases(draw):
         w = draw(width)
-        mode = draw(st.sampled_from(["any", "boundary", "boundary", "valid"]))
+        mode = draw(st.sampled_from(["any", "boundary", "boundary", "valid", "composable"]))
+        if mode == "composable":
+            s = draw(st.text(st.sampled_from(cp1252.ENCODABLE_CHARS), max_size=max(0, w - 4)))
+            i = draw(st.integers(0, len(s)))
+            s = s[:i] + draw(st.sampled_from(COMPOSABLE)) + s[i:]
+            return {"w": w, "s": [ord(c) for c in s]}
         if mode == "boundary":
             n = max(0, w - 1 + draw(st.integers(-2, 2)))
             ab = alphabet if draw(st.booleans()) else st.sampled_from(cp1252.ENCODABLE_CHARS)
@@ -303,9 +310,10 @@ def sites_strategy(tier):
         elif kind == "short":
             s = draw(st.text(ab, max_size=w - 1))
         else:
-            s = draw(st.text(ab, max_size=w - 2))
+            s = draw(st.text(ab, max_size=w - 3))
             i = draw(st.integers(0, len(s)))
-            s = s[:i] + chr(draw(st.sampled_from(BAD_CPS))) + s[i:]
+            bad = draw(st.one_of(st.sampled_from(BAD_CPS).map(chr), st.sampled_from(COMPOSABLE)))
+            s = s[:i] + bad + s[i:]
         return {"site": site, "s": [ord(c) for c in s]}
 
     return cases()
